@@ -171,6 +171,16 @@ fn op_body(cfg: Cfg, op: &'static str, res: &mut CaseResult) -> Option<()> {
                 let w = RangeWitness::init(mk_openings(wit)).unwrap();
                 drop(w);
                 report(&mut res, &sec, op, allocmon::disarm());
+                // the same with an openings vector that has spare capacity (built by push): whatever the constructor does with
+                // the vector it was handed, the buffer that held the values is wiped before it is freed
+                allocmon::arm();
+                let mut v: Vec<CommitmentOpening> = Vec::with_capacity(cfg.m + 5);
+                for (val, r) in wit.values.iter().zip(wit.blindings.iter()) {
+                    v.push(CommitmentOpening::new(*val, r.clone()));
+                }
+                let w = RangeWitness::init(v).unwrap();
+                drop(w);
+                report(&mut res, &sec, op, allocmon::disarm());
             },
             "witness-init-refused" => {
                 // inconsistent blinding counts: the constructor refuses and drops the openings it was handed
